@@ -933,6 +933,52 @@ func TestVerif_C13_Mem(t *testing.T) {
 		})
 	}
 
+	// ---- (2b) long sessions: one connection pair carrying 70 000 small messages (state after 2^16 messages and frames:
+	// counters, pooled compressors taken and returned tens of thousands of times, buffers reused)
+	for li := 0; li < m.N(2, 8); li++ {
+		li := li
+		jobs = append([]func(){func() {
+			r := m.Rand("long", li)
+			cfg := verifC13Cfg{comp: li%2 == 0, wbufC: r.Pick(64, 256, 1024), wbufS: r.Pick(64, 256, 4096), rbufC: r.Pick(125, 1024), rbufS: r.Pick(125, 4096), label: "long"}
+			rep := map[string]interface{}{"part": "long", "session": li}
+			p := verifC13NewPair(m, cfg, rep)
+			if cfg.comp {
+				p.cl.c.SetCompressionLevel(1)
+				p.sv.c.SetCompressionLevel(1)
+			}
+			const nops = 70000
+			ops := make([]verifC13Op, 0, nops)
+			apis := []string{"WriteMessage", "WriteMessage", "NextWriter", "Prepared", "WriteString"}
+			for k := 0; k < nops; k++ {
+				fc := r.Bool()
+				b := cfg.wbufS
+				if fc {
+					b = cfg.wbufC
+				}
+				op := verifC13MakeOp(r, fc, apis[r.Intn(len(apis))], r.Pick(0, 1, 2, 17, 60, 125, 126, 200, 2*b+3), b)
+				if cfg.comp {
+					op.setCompress = 0
+					if k%5 == 0 {
+						op.setCompress = 1 // a fifth of the messages compressed
+					}
+				}
+				if k%997 == 0 {
+					op.ping = r.Bytes(r.Intn(126))
+				}
+				ops = append(ops, op)
+			}
+			m.Case()
+			m.Count("long_sessions", 1)
+			m.Count("sessions", 1)
+			m.Count("long_session_messages", nops)
+			m.Guard("ws.longsession", nil, func() {
+				p.run(ops, func() int { return r.Range(1, 50) })
+				p.check()
+			})
+		}}, jobs...)
+	}
+	m.Require("long_sessions", int64(m.N(2, 8)))
+
 	// ---- (3) random sessions
 	n := m.N(3000, 150000) - len(jobs)
 	for si := 0; si < n; si++ {
